@@ -6,6 +6,8 @@ import (
 	"flag"
 	"fmt"
 	"os"
+	"runtime"
+	"runtime/pprof"
 	"time"
 
 	"verif/explore"
@@ -88,6 +90,20 @@ func main() {
 			rp.Finish()
 			rp.Notes = append(rp.Notes, h.Rule)
 			reports = append(reports, rp)
+		}
+		if os.Getenv("VERIF_MEMSTATS") != "" {
+			var ms runtime.MemStats
+			runtime.GC()
+			runtime.ReadMemStats(&ms)
+			fmt.Fprintf(os.Stderr, "MEMSTATS heapalloc=%dMB sys=%dMB goroutines=%d\n", ms.HeapAlloc>>20, ms.Sys>>20, runtime.NumGoroutine())
+			if f, err := os.Create("/tmp/gor.txt"); err == nil {
+				pprof.Lookup("goroutine").WriteTo(f, 1)
+				f.Close()
+			}
+			if f, err := os.Create("/tmp/heap.prof"); err == nil {
+				pprof.WriteHeapProfile(f)
+				f.Close()
+			}
 		}
 		b, _ := json.Marshal(reports)
 		if *resFile != "" {
